@@ -505,6 +505,17 @@ fn process_tags(
                 None
             };
             let gen_result = t.generate_events(context);
+            // Exceeding a configured limit is final: a retry cannot succeed, and would
+            // re-run the element from whatever state (e.g. loop variables) it left behind.
+            // This holds inside a specs block too, where other errors are ignored.
+            if let Err(
+                SvgdxError::LoopLimitError(..)
+                | SvgdxError::VarLimitError(..)
+                | SvgdxError::DepthLimitExceeded(..),
+            ) = gen_result
+            {
+                return gen_result.map(|_| None);
+            }
             if !context.in_specs {
                 // if we *are* in a specs block, we don't care if there were errors;
                 // a specs entry may have insufficient context until reuse time.
@@ -518,16 +529,6 @@ fn process_tags(
                         idx_output.insert(idx, events);
                     }
                 } else {
-                    // Exceeding a configured limit is final: a retry cannot succeed, and would
-                    // re-run the element from whatever state (e.g. loop variables) it left behind.
-                    if let Err(
-                        SvgdxError::LoopLimitError(..)
-                        | SvgdxError::VarLimitError(..)
-                        | SvgdxError::DepthLimitExceeded(..),
-                    ) = gen_result
-                    {
-                        return gen_result.map(|_| None);
-                    }
                     if let (Some(el), Err(err)) = (el, gen_result) {
                         if let SvgdxError::MultiError(err_list) = err {
                             for (idx, (el, err)) in err_list {
